@@ -1,7 +1,7 @@
 (* Corr/Wire.v — reading and printing records and messages in the textual form of
    harness/common/rrconv.go, and the case functions shared by the wire
    properties (C01, C02, C04, C08, C09, C16, C20). *)
-From Dns Require Import Model.Msg Model.Truncate Model.Heap Gen.Structs.
+From Dns Require Import Model.Msg Model.Truncate Model.Heap Model.Dup Gen.Structs.
 Open Scope N_scope.
 
 Fixpoint split_go (c : ascii) (s : string) (cur : string) : list string :=
@@ -202,6 +202,14 @@ Definition c_copy_shared (k : string) : string :=
                       (combine fields (combine ps ss))))
   end.
 
+Definition c_is_dup (a b : string) : string := show_r showb (is_duplicate (parse_rr a) (parse_rr b)).
+Definition c_normalize (t : string) : string := hex (normalized_string (unhex t)).
+Definition parse_kt (s : string) : bytes * N :=
+  match split_on ":" s with [k; t] => (unhex k, undec t) | _ => ([], 0) end.
+Definition c_dedup (items : string) : string :=
+  join ","%string (map (fun p : nat * N => decn (fst p) +++ ":" +++ dec (snd p))%string
+                       (dedup (map parse_kt (split_list "," items)))).
+
 Definition run_wire (fn : string) (args : list string) : option string :=
   if String.eqb fn "pack_rr" then Some (c_pack_rr (arg args 0) (arg args 1))
   else if String.eqb fn "unpack_rr" then Some (c_unpack_rr (arg args 0) (arg args 1))
@@ -210,6 +218,9 @@ Definition run_wire (fn : string) (args : list string) : option string :=
   else if String.eqb fn "len_msg" then Some (c_len_msg (arg args 0))
   else if String.eqb fn "len_rr" then Some (c_len_rr (arg args 0))
   else if String.eqb fn "pack_names" then Some (c_pack_names (arg args 0) (arg args 1) (arg args 2))
+  else if String.eqb fn "is_dup" then Some (c_is_dup (arg args 0) (arg args 1))
+  else if String.eqb fn "normalize" then Some (c_normalize (arg args 0))
+  else if String.eqb fn "dedup" then Some (c_dedup (arg args 0))
   else if String.eqb fn "copy_shared" then Some (c_copy_shared (arg args 0))
   else if String.eqb fn "truncate" then Some (c_truncate (arg args 0) (arg args 1))
   else if String.eqb fn "pack_buf" then Some (c_pack_buf (arg args 0) (arg args 1))
